@@ -2,7 +2,7 @@
 from analyzer import lin
 from .common import *
 from .listener import *
-from .workers import region_for, env_field, single_sym, WORKER
+from .workers import region_for, env_field, env_param_path, single_sym, WORKER
 
 OPTIONTYPE = "tftpd::packet::OptionType"
 TRANSFEROPTION = "tftpd::packet::TransferOption"
@@ -122,12 +122,14 @@ def check(world, tier):
         from .workers import worker_upvar
         u = worker_upvar(R) if R is not None else None
         for fname, (lo, hi) in (("blk_size", (8, 65464)), ("windowsize", (1, 65535))):
-            sid = eng.sym_ids.get(("env", clos, (u, fi_w[fname]))) if u is not None else None
+            pth = env_param_path(R, fname) if R is not None else None
+            sid = eng.sym_ids.get(("env", clos, pth)) if pth is not None else None
             ok = sid is not None and cx.entails(lin.le(lin.const(lo), lin.var(sid))) and cx.entails(lin.le(lin.var(sid), lin.const(hi)))
             d.ob(ok, "worker-starts-with-unbounded-%s %s" % (fname, short(clos)),
                  "a worker can start with %s outside %d..=%d (the value was acknowledged in the OACK)" % (fname, lo, hi),
                  sample={"worker": short(clos), fname: "%d..=%d at thread entry" % (lo, hi)})
-        sid = eng.sym_ids.get(("env", clos, (u, fi_w["timeout"], "$secs"))) if u is not None else None
+        pth = env_param_path(R, "timeout") if R is not None else None
+        sid = eng.sym_ids.get(("env", clos, pth + ("$secs",))) if pth is not None else None
         ok = sid is not None and cx.entails(lin.le(lin.const(1), lin.var(sid)))
         d.ob(ok, "worker-starts-with-zero-timeout %s" % short(clos), "a worker can start with a zero retransmission timeout",
              sample={"worker": short(clos), "timeout secs": ">= 1 at thread entry"})
@@ -199,13 +201,6 @@ def check(world, tier):
                     c.ob(False, "via " + f_.key, f_.msg, f_.site)
                 c.ob(not bad, "worker-uses-negotiated-value via %s" % cid, "", sample={cid: ", ".join(keys)})
     # ---------------------------------------------------------------- e: defaults
-    cn = prog.consts
-    def cval(suffix):
-        for k, v in cn.items():
-            if k.endswith(suffix) and "server::" in k:
-                return v
-        return None
-    db, dw, dt = cval("DEFAULT_BLOCK_SIZE"), cval("DEFAULT_WINDOW_SIZE"), cval("DEFAULT_TIMEOUT")
     for (fid, h) in sorted(loops, key=repr):
         for what, (root, path) in wo_roots.get((fid, h), {}).items():
             inits = [v for (node, wr, wp, v) in eng.writes_log if wr == root and node[0] == fid and node[1] not in eng.frame_bodies[fid].loops.get(h, ())
@@ -216,15 +211,13 @@ def check(world, tier):
                 if isinstance(v, tuple) and v[0] == "agg":
                     fv = v[1].get(tuple(path))
                     if what == "timeout":
-                        tv = v[1].get(tuple(path))
-                        okd = okd or (isinstance(tv, tuple) and tv[0] == "t" and "DEFAULT_TIMEOUT" in repr(tv))
+                        tv = v[1].get(tuple(path) + ("$secs",))
+                        okd = okd or (isinstance(tv, tuple) and tv[0] == "i" and tv[1] == (5, ()))
                     elif fv is not None and fv[0] == "i" and fv[1] == (want, ()):
                         okd = True
             e_.ob(okd, "default-%s in %s" % (what, short(frame_fn(fid))), "without options the worker's %s is not the RFC 1350 default" % what,
-                  sample={"default " + what: want if want else "DEFAULT_TIMEOUT"})
-    e_.ob(db is not None and int(db.get("val", -1)) == 512, "const-default-blocksize", "DEFAULT_BLOCK_SIZE is not 512", nontrivial=False)
-    e_.ob(dw is not None and int(dw.get("val", -1)) == 1, "const-default-windowsize", "DEFAULT_WINDOW_SIZE is not 1", nontrivial=False)
-    e_.ob(dt is not None and "secs: 5_u64" in dt.get("repr", ""), "const-default-timeout", "DEFAULT_TIMEOUT is not 5 s", nontrivial=False)
+                  sample={"default " + what: want if want else "5 s"})
+    e_.need(sum(len(wo_roots.get(lp, {})) for lp in loops), 3, "loop-carried option values with a default (blk_size, windowsize, timeout)")
     return rep
 
 
